@@ -97,8 +97,12 @@ func (r *Rec) Flush(t *testing.T) {
 			t.Fatal(err)
 		}
 	}
-	must(os.WriteFile(filepath.Join(out, "ops.txt"), []byte(strings.Join(r.ops, "\n")+"\n"), 0o644))
-	must(os.WriteFile(filepath.Join(out, "impl.txt"), []byte(strings.Join(r.outs, "\n")+"\n"), 0o644))
+	nl := "\n"
+	if len(r.ops) == 0 {
+		nl = "" // a monitor-only family: nothing for the model to answer
+	}
+	must(os.WriteFile(filepath.Join(out, "ops.txt"), []byte(strings.Join(r.ops, "\n")+nl), 0o644))
+	must(os.WriteFile(filepath.Join(out, "impl.txt"), []byte(strings.Join(r.outs, "\n")+nl), 0o644))
 	keys := make([]string, 0, len(r.cover))
 	for k := range r.cover {
 		keys = append(keys, k)
